@@ -75,6 +75,7 @@ def baseline(name):
             recs, _ = records(p.link.wire("s"))
             if idx < len(recs):
                 streams["s"]["need"] = recs[idx]["off"]
+        streams["ver"] = tuple(p.c.version)
         _base[name] = streams
     return _base[name]
 
@@ -97,7 +98,99 @@ def offsets_for(stream, full, seed=0):
 def check(case):
     if case["k"] == "hs":
         return check_hs(case)
+    if case["k"] == "alert":
+        return check_alert(case)
     return check_data(case)
+
+
+HRR_RANDOM = bytes.fromhex("CF21AD74E59A6111BE1D8C021E65B891"
+                           "C2A211167ABB8C5E079E09E2C8A8339C")
+
+
+def alert_positions(name, side):
+    """Record indices of ``side``'s honest stream at which that side could
+    instead abort with an *unprotected* fatal alert."""
+    base = baseline(name)
+    recs, _ = records(base[side]["send"])
+    ver13 = base["ver"] == (3, 4)
+    pos = []
+    for i, r in enumerate(recs):
+        if not ver13:
+            # everything up to and instead of the first ChangeCipherSpec
+            pos.append(i)
+            if r["type"] == 20:
+                break
+            continue
+        if r["type"] not in (20, 22):
+            if side == "c":
+                # the client's second flight: it switches its write keys
+                # only when it sends it, an abort before that is plaintext
+                pos.append(i)
+            break
+        pos.append(i)
+        if side == "s" and r["type"] == 22 and r["body"][:1] == b"\x02" \
+                and r["body"][6:38] != HRR_RANDOM:
+            break       # keys change right after a real ServerHello
+    return pos
+
+
+def check_alert(case):
+    """The peer aborts the handshake with a fatal alert at a point where
+    that alert is unprotected: the receiver reports exactly that alert."""
+    name, side, desc = case["fl"], case["side"], case["desc"]
+    pos = alert_positions(name, side)
+    at = pos[case["pos"] % len(pos)]
+    labels = ["alert", "fl=" + name, "aborting=" + side, "at=%d" % at,
+              "desc=%d" % desc]
+    client, server = opts_for(name)
+    DET.reseed("C17", name)
+    direction = "c2s" if side == "c" else "s2c"
+    state = {"done": False}
+
+    def mitm(d, idx, rec):
+        if d != direction:
+            return [rec["hdr"] + rec["body"]]
+        if idx < at:
+            return [rec["hdr"] + rec["body"]]
+        if state["done"]:
+            return []
+        state["done"] = True
+        ver = rec["hdr"][1:3] if rec["hl"] == 5 else b"\x03\x01"
+        return [b"\x15" + ver + b"\x00\x02" + bytes([2, desc])]
+
+    link = Link(mitm=mitm)
+    cs, ss = link.sock("c"), link.sock("s")
+    cc, scn = TLSConnection(cs), TLSConnection(ss)
+    outs, verdict = drive({"c": sc.client_gen(cc, client),
+                           "s": sc.server_gen(scn, server)}, link,
+                          max_steps=50000, on_stall="leave")
+    victim = "s" if side == "c" else "c"
+    vconn = scn if victim == "s" else cc
+    vout = outs[victim]
+    where = "%s:%s" % (victim, "tls13" if baseline(name)["ver"] == (3, 4)
+                       else "tls12-")
+    if not state["done"]:
+        return good(nt=False, labels=labels + ["not-reached"])
+    if verdict in ("spin", "budget"):
+        return bad("hang-on-peer-alert:" + where, repr(case), labels=labels)
+    if vout.ok:
+        return bad("completes-despite-fatal-alert:" + where, repr(case),
+                   labels=labels)
+    if vout.state != "exc":
+        return bad("blocked-after-fatal-alert:" + where, repr(vout),
+                   labels=labels)
+    e = vout.exc
+    if not (isinstance(e, TLSRemoteAlert) and e.description == desc):
+        return bad("peer-alert-not-surfaced:" + where,
+                   "peer aborted with fatal alert %d in place of its record "
+                   "%d; the call raised %s" % (desc, at, describe_exc(e)),
+                   labels=labels)
+    if not vconn.closed:
+        return bad("not-closed-after-fatal-alert:" + where, "",
+                   labels=labels)
+    if vconn.session is not None and vconn.session.resumable:
+        return bad("resumable-after-fatal-alert:" + where, "", labels=labels)
+    return good(labels=labels)
 
 
 def acceptable_transport_exc(e):
@@ -253,7 +346,14 @@ def check_data(case):
             raw = raw.socket
         raw.tx_fault = (raw.tx_total, "pipe")
         labels.append("reply-fails")
-    if ev == "close_notify":
+    if ev == "close_notify" and case.get("cn_level", 1) != 1:
+        # the closure alert is identified by its description; tlslite-ng
+        # itself sends it at level fatal when a checker rejects the peer
+        o = drive({sender: sconn._sendMsg(RawMsg(21, bytes(
+            [case["cn_level"], AD.close_notify])))}, p.link,
+            on_stall="leave")[0][sender]
+        labels.append("close-notify-level=%d" % case["cn_level"])
+    elif ev == "close_notify":
         o = sc.do_close(p, sender)
     elif ev == "warning":
         o = drive({sender: sconn._sendMsg(RawMsg(21, bytes(
@@ -482,12 +582,19 @@ def cases(draw, tier):
                      "eof_mid_record", "close_inflight",
                      "close_inflight_ctrl", "fatal_then_send"])),
                 "reply_fails": draw(st.booleans()),
+                "cn_level": draw(st.sampled_from([1, 1, 2, 0, 255])),
                 "nrec": draw(st.integers(0, 4)),
                 "sender": draw(st.sampled_from(["c", "s"])),
                 "closeSocket": draw(st.booleans()),
                 "ignoreAbrupt": draw(st.booleans()),
                 "desc": draw(st.sampled_from([10, 20, 40, 47, 80, 86])),
                 "cut": draw(st.integers(0, 400))}
+    if draw(st.integers(0, 5)) == 0:
+        return {"k": "alert", "fl": draw(st.sampled_from(FL)),
+                "side": draw(st.sampled_from(["c", "s"])),
+                "pos": draw(st.integers(0, 7)),
+                "desc": draw(st.sampled_from([10, 20, 40, 42, 47, 50, 70,
+                                              80, 86, 109, 110, 116, 120]))}
     return {"k": "hs", "fl": draw(st.sampled_from(FL)),
             "side": draw(st.sampled_from(["c", "s"])),
             "dir": draw(st.sampled_from(["recv", "send"])),
@@ -515,6 +622,10 @@ def explicit(tier, seed):
                     for kind in kinds:
                         yield {"k": "hs", "fl": fl, "side": side,
                                "dir": direction, "off": off, "kind": kind}
+        for side in "cs":
+            for k in range(len(alert_positions(fl, side))):
+                yield {"k": "alert", "fl": fl, "side": side, "pos": k,
+                       "desc": (40, 47, 70, 80)[k % 4]}
         for ev in ("close_notify", "warning", "fatal", "eof",
                    "eof_mid_record"):
             for nrec in (0, 2):
@@ -537,6 +648,9 @@ def explicit(tier, seed):
                 yield {"k": "data", "fl": fl, "event": "close_notify",
                        "nrec": nrec, "sender": sender, "closeSocket": True,
                        "ignoreAbrupt": False, "reply_fails": True}
+                yield {"k": "data", "fl": fl, "event": "close_notify",
+                       "nrec": nrec, "sender": sender, "closeSocket": True,
+                       "ignoreAbrupt": False, "cn_level": 2}
                 if nrec == 0:
                     yield {"k": "data", "fl": fl, "event": "fatal_then_send",
                            "nrec": 0, "sender": sender, "closeSocket": True,
